@@ -24,6 +24,7 @@ pub mod e2e;
 pub mod retry_e2e;
 pub mod session_e2e;
 pub mod smoke;
+pub mod topo_e2e;
 
 pub fn dispatch(ctx: &Ctx) -> Option<Outcome> {
     Some(match ctx.prop.as_str() {
@@ -33,13 +34,19 @@ pub fn dispatch(ctx: &Ctx) -> Option<Outcome> {
             _ => c02::run(ctx),
         },
         "C03" => c03::run(ctx),
-        "C04" => c04::run(ctx),
+        "C04" => match ctx.part.as_deref() {
+            Some("b") => topo_e2e::run_c04_b(ctx),
+            _ => c04::run(ctx),
+        },
         "C05" => c05::run(ctx),
         "C06" => c06::run(ctx),
         "C07" => c07::run(ctx),
         "C09" => c09::run(ctx),
         "C10" => c10::run(ctx),
-        "C11" => c11::run(ctx),
+        "C11" => match ctx.part.as_deref() {
+            Some("b") => topo_e2e::run_c11_b(ctx),
+            _ => c11::run(ctx),
+        },
         "C12" => c12::run(ctx),
         "C13" => c13::run(ctx),
         "C14" => c14::run(ctx),
